@@ -57,6 +57,7 @@ var (
 	ErrEmptyMetaLine  = Error{"gff: empty comment metaline"}
 	ErrBadMetaLine    = Error{"gff: incomplete metaline"}
 	ErrBadSequence    = Error{"gff: corrupt metasequence"}
+	ErrZeroPosition   = Error{"gff: one-based position is zero"}
 )
 
 const (
@@ -243,6 +244,15 @@ func mustAtoi(f [][]byte, index, line int) int {
 	return int(i)
 }
 
+// mustAtoPos parses a one-based position and returns it zero-based.
+func mustAtoPos(f [][]byte, index, line int) int {
+	i := mustAtoi(f, index, line)
+	if i == 0 {
+		panic(&csv.ParseError{Line: line, Column: index, Err: ErrZeroPosition})
+	}
+	return feat.OneToZero(i)
+}
+
 func mustAtofPtr(f [][]byte, index, line int) *float64 {
 	if len(f[index]) == 1 && f[index][0] == '.' {
 		return nil
@@ -418,7 +428,7 @@ func (r *Reader) commentMetaline(line []byte) (f feat.Feature, err error) {
 		}
 		return &Region{
 			Sequence:    Sequence{SeqName: string(fields[1]), Type: r.Type},
-			RegionStart: feat.OneToZero(mustAtoi(fields, 2, r.line)),
+			RegionStart: mustAtoPos(fields, 2, r.line),
 			RegionEnd:   mustAtoi(fields, 3, r.line),
 		}, nil
 	case "DNA", "RNA", "Protein", "dna", "rna", "protein":
@@ -511,7 +521,7 @@ func (r *Reader) Read() (f feat.Feature, err error) {
 		SeqName:    string(fields[nameField]),
 		Source:     string(fields[sourceField]),
 		Feature:    string(fields[featureField]),
-		FeatStart:  feat.OneToZero(mustAtoi(fields, startField, r.line)),
+		FeatStart:  mustAtoPos(fields, startField, r.line),
 		FeatEnd:    mustAtoi(fields, endField, r.line),
 		FeatScore:  mustAtofPtr(fields, scoreField, r.line),
 		FeatStrand: mustAtos(fields, strandField, r.line),
